@@ -217,6 +217,7 @@ type c18Stats struct {
 	outcomes map[string]int64
 	distinct map[c18Case]struct{}
 	deep     map[string]string // system -> the longest history explored (ties: smallest text), for the evidence samples
+	nontriv  atomic.Int64      // explored histories (each explored exactly once) with at least one rollover or restart
 }
 
 type c18Case struct {
@@ -714,6 +715,9 @@ func (s *c18Sys) apply(in *c18Inst, op c18Op) (err error) {
 			in.kill() // a violating instance is never extended; leave no goroutine behind in the bubble
 		}
 		s.st.merge(in)
+		if first && op.kind != c18OpStart {
+			s.st.nontriv.Add(1)
+		}
 		if err == nil && first && in.m != nil && endedAt != nil {
 			endedAt.Store(in.clk.harnessNow().UnixNano())
 		}
@@ -986,6 +990,7 @@ func c18Manager(t *testing.T) {
 	if len(r.Samples) > 6 {
 		r.Samples = r.Samples[:6]
 	}
-	r.Distinct = int64(len(stats.distinct))
-	r.Note("distinct_nontrivial = distinct (system, instant, served certificate, lastConfig nil/non-nil) tuples at which every oracle was evaluated")
+	r.Distinct = stats.nontriv.Load()
+	r.Note("oracle evaluation points: %d distinct (system, instant, served certificate, lastConfig nil/non-nil) tuples", len(stats.distinct))
+	r.Note("distinct_nontrivial = explored histories (BFS explores every history exactly once) that contain at least one rollover or restart; a history consisting of start(g) alone is counted as trivial")
 }
